@@ -87,7 +87,8 @@ def main():
     rep = common.Report(PID, "model_checking")
     rep.rule = ("one case = one script with register expressions, run symbolically with symbolic measurement values and every symbol-set iteration "
                 "order forked; distinct = distinct scripts")
-    rep.bounds = {"registers per expression": "<=3, numbers from {0,1,5,12}", "coefficients": "concrete", "positions": "positional, keyword, both, loop body"}
+    rep.bounds = {"registers per expression": "<=3, numbers from {0,1,5,12}", "coefficients": "concrete", "positions": "positional, keyword, both, loop body",
+                  "also": "register numbers with leading zeros; a deep copy of the loaded program; the C01 expression-shape family over q0, q1 (quick: every 9th; thorough: all)"}
     rep.assumptions = [
         "one iteration order per distinct symbol-set content per path (a hash seed fixes one order per content)",
         "measurement values are symbolic reals; poles excluded by the reference's domain conditions; functions uninterpreted (dispatch only)",
